@@ -628,7 +628,7 @@ Section C05.
   Lemma finish_part_sq macro s s' r : finish_part macro s = (s', r) -> sq s s'.
   Proof.
     apply (mf_finish_part _ _ _ _ _ _ sq_frame). intros s0.
-    eapply raise_meta_sq; [intros ?; discriminate|]. apply surjective_pairing.
+    eapply raise_meta_sq; [|apply surjective_pairing]. intros e; discriminate.
   Qed.
 
   Lemma run_steps_quiet fuel steps s s' r : run_steps fuel steps s = (s', r) -> quiet s s'.
@@ -721,8 +721,8 @@ Section C05.
     unfold FrameLib.execute_once_tail. intros H.
     apply bind_inv in H. destruct H as [(x & H & ->)|([] & s1 & H1 & H)].
     { exists None, []. split; [|exact I]. apply step_relM_same.
-      eapply raise_meta_sq; [intros ?; discriminate|exact H]. }
-    assert (Q1 : sq s s1) by (eapply raise_meta_sq; [intros ?; discriminate|exact H1]).
+      eapply raise_meta_sq; [|exact H]; intros e; discriminate. }
+    assert (Q1 : sq s s1) by (eapply raise_meta_sq; [|exact H1]; intros e; discriminate).
     apply bind_inv in H. destruct H as [(x & H & ->)|(steps & s2 & H2 & H)].
     { exists None, []. split; [|exact I]. apply step_relM_same.
       apply (mf_trans _ _ _ _ sq_frame _ _ _ Q1). eapply compute_steps_sq; eauto. }
@@ -849,7 +849,7 @@ Section C05.
       (length (opt_list consumed) + length (i_iq (m_i s')) + length (i_eq (m_i s')) =
        length (i_iq (m_i s)) + length (i_eq (m_i s)) + length (internals sent))%nat.
   Proof.
-    intros H. destruct (C05_step_gen _ _ _ _ _ H) as (c & l & R & O).
+    intros H. destruct (C05_step_gen _ _ _ _ _ H) as (c & l & R & _ & O).
     exists c, l. split; [exact O|]. apply step_rel_perm in R. simpl in R. split; [exact R|].
     apply Permutation_length in R. rewrite !app_length, map_length in R. lia.
   Qed.
@@ -1038,7 +1038,7 @@ Section C05.
     exists steps, m = Some (now, steps) /\ steps <> [].
   Proof.
     intros QI Hi Hdue H.
-    destruct (C05_step_gen _ _ _ _ _ H) as (c & l & _ & O).
+    destruct (C05_step_gen _ _ _ _ _ H) as (c & l & _ & _ & O).
     apply (proj2 (C05_delay now (m_i s) QI)) in Hdue.
     rewrite execute_once_eq in H. apply bind_inv in H.
     destruct H as [(x & H & _)|([] & s1 & H1 & H)]; [inversion H|].
@@ -1057,3 +1057,71 @@ Section C05.
   Qed.
 
 End C05.
+
+Arguments pop_none {now iq eq}.
+Arguments pop_int {now iq eq}.
+Arguments pop_ext {now iq eq}.
+
+(* ================================================================== non-vacuity *)
+(* A concrete chart, code semantics and state: both queues non-empty, Q_inv holds, and one call of
+   execute_once consumes the due internal head, fires a transition whose action sends an internal
+   and a meta event; the internal one lands (FIFO, due = now + 0) before the entry due at 7. *)
+Module Example.
+  Open Scope string_scope.
+  Open Scope Z_scope.
+
+  Definition ex_chart : chart :=
+    mkChart "c" None None
+      [("root", mkState "root" KCompound (Some "a") None None None [] [] []);
+       ("a", mkState "a" KBasic None None None None [] [] [])]
+      [("root", None); ("a", Some "root")]
+      [(None, ["root"]); (Some "root", ["a"])]
+      [mkTrans "a" (Some "a") (Some "x") None (Some "send") 0 [] [] []].
+
+  Definition ex_exec (c : call unit) (_ : unit) : option (unit * list event) :=
+    match cl_code c with
+    | Some "send" => Some (tt, [mkEvent Internal "y" []; mkEvent Meta "note" []])
+    | _ => Some (tt, [])
+    end.
+  Definition ex_eval (c : call unit) (_ : unit) : option bool := Some true.
+  Definition ex_emit (_ : Z) (_ : meta) (x : unit) : unit * option err := (x, None).
+
+  Definition ev_ix := mkEvent Internal "x" [].
+  Definition ev_iy := mkEvent Internal "y" [].
+  Definition ev_ex := mkEvent External "x" [].
+  Definition ev_ez := mkEvent External "z" [].
+
+  Definition ex_i : istate unit :=
+    mkIState 0 true 0 [] ["root"; "a"] [] [] []
+             [(1, ev_ix); (7, ev_ix)] [(2, ev_ex); (2, ev_ez)] false tt [].
+  Definition ex_s : mstate unit unit := mkM ex_i tt [].
+
+  Example Q_inv_nonvacuous :
+    Q_inv ex_i /\ i_iq ex_i <> [] /\ i_eq ex_i <> [].
+  Proof.
+    unfold Q_inv, q_sorted. simpl.
+    repeat split; try discriminate; repeat constructor; unfold due_le, due; simpl;
+      try lia; try discriminate.
+  Qed.
+
+  Example step_nonvacuous :
+    exists s' steps,
+      execute_once unit unit ex_exec ex_eval ex_emit ex_chart 10 5 ex_s = (s', inl (Some (5, steps))) /\
+      macro_event steps = Some ev_ix /\
+      i_iq (m_i s') = [(5, ev_iy); (7, ev_ix)] /\
+      i_eq (m_i s') = [(2, ev_ex); (2, ev_ez)] /\
+      consumed_obs unit (m_tr s') = [ev_ix].
+  Proof. eexists. eexists. split; [vm_compute; reflexivity|]. vm_compute. auto. Qed.
+End Example.
+
+(* ================================================================== summary / assumptions *)
+Print Assumptions C05_insert.
+Print Assumptions C05_which.
+Print Assumptions C05_consume.
+Print Assumptions C05_step.
+Print Assumptions C05_step_gen.
+Print Assumptions C05_conservation.
+Print Assumptions C05_conservation_run.
+Print Assumptions C05_delay.
+Print Assumptions C05_delay_progress.
+Print Assumptions Example.step_nonvacuous.
